@@ -117,9 +117,19 @@ func candidates(s *Scenario) []*Scenario {
 		})
 	}
 	// configuration
-	add(func(c *Scenario) bool { ch := c.Sched.Strategy != "fifo"; c.Sched.Strategy = "fifo"; c.Decisions = nil; return ch })
+	add(func(c *Scenario) bool {
+		ch := c.Sched.Strategy != "fifo"
+		c.Sched.Strategy = "fifo"
+		c.Decisions = nil
+		return ch
+	})
 	add(func(c *Scenario) bool { ch := c.Sched.StallPct != 0; c.Sched.StallPct = 0; return ch })
-	add(func(c *Scenario) bool { ch := c.Backend != "mem"; c.Backend = "mem"; c.EncVia = ""; return ch && c.Engine != "ssim" })
+	add(func(c *Scenario) bool {
+		ch := c.Backend != "mem"
+		c.Backend = "mem"
+		c.EncVia = ""
+		return ch && c.Engine != "ssim"
+	})
 	add(func(c *Scenario) bool { ch := c.Logger != "discard"; c.Logger = "discard"; return ch })
 	add(func(c *Scenario) bool { ch := c.StoreLat != 0; c.StoreLat = 0; return ch })
 	add(func(c *Scenario) bool { ch := c.WChunk != 0 || c.RChunk != 0; c.WChunk, c.RChunk = 0, 0; return ch })
